@@ -324,8 +324,6 @@ def registry_fold(prog, tests, flags=(0, 0), during=None):
         # `during`: test index -> [(registry method, args)] applied to the registry while that test runs (a test body or a plugin
         # action may install or reset plugins); the plugin chain each test is handed is logged
         def run_one(ev_, o, *a_):
-            if getattr(ev_, "_parent", None) is not None:
-                raise Unknown("runOneTest is not called from runAllTests itself (registry changes during a run are modelled on its frame)")
             log.append(("runOneTest", idx.get(o), a_[0] if a_ else None))
             for name, args in during.get(idx.get(o), ()):
                 ms = [f for f in prog.methods_of("TestRegistry") if f.name == name and len(f.params) == len(args)]
@@ -339,8 +337,11 @@ def registry_fold(prog, tests, flags=(0, 0), during=None):
                 e2.pass_object = True
                 e2.run_blocks(ms[0].entry, max_steps=2000)
                 for k, v in e2.env.items():
-                    if rootk(k) in fields:
+                    if rootk(k) in fields and ev_.env.get(k) != v:
+                        # (written in the frame that makes the call and logged as its store: an inlined helper of the registry hands
+                        # its stores back to runAllTests when it returns)
                         ev_.env[k] = v
+                        ev_.stores.append((k, v))
             return 0
         run_one.wants_ev = True
         hooks["UtestShell::runOneTest"] = run_one
